@@ -106,6 +106,9 @@ func (p *Program) normVal(v ssa.Value, neg bool) *CondAtom {
 				case *ssa.Const:
 				case *ssa.Phi:
 					walk(y)
+				case *ssa.BinOp, *ssa.Call, *ssa.UnOp, *ssa.Extract:
+					// a computed truth value on one arm (flag := cond1 && cond2): still a flag; the arm's own
+					// condition is judged where the flag is consumed (FlagImplies)
 				default:
 					allConst = false
 				}
@@ -1061,6 +1064,18 @@ func (p *Program) FlagImplies(fn *ssa.Function, g GuardMatch) GuardMatch {
 							ok = false
 						}
 					}
+				default:
+					// a computed arm: true only if that value is true — either the way to the arm already passed g,
+					// or the value itself is the guard's atom
+					nTrue++
+					pred := ph.Block().Preds[i]
+					last := pred.Instrs[len(pred.Instrs)-1]
+					if PathExists(fn, removed, last, nil) {
+						ca2 := p.normVal(e, false)
+						if !atomMatches(g, ca2, true, last) {
+							ok = false
+						}
+					}
 				}
 			}
 		}
@@ -1071,6 +1086,67 @@ func (p *Program) FlagImplies(fn *ssa.Function, g GuardMatch) GuardMatch {
 		}
 		memo[ca.X] = ok && nTrue > 0
 		return memo[ca.X]
+	}
+}
+
+// ParamFlagImplies: inside fn, a branch on a boolean PARAMETER being true counts as having passed the guard if at
+// every call site of fn the argument handed in is a value whose truth implies the guard there (a flag set only behind
+// the guard, the guard's own condition, or the constant false). mk builds the guard for a given caller.
+func (p *Program) ParamFlagImplies(fn *ssa.Function, mk func(f *ssa.Function) GuardMatch) GuardMatch {
+	return func(ca *CondAtom, truth bool) bool {
+		if !truth {
+			return false
+		}
+		prm, ok := ca.X.(*ssa.Parameter)
+		if !ok || prm.Parent() != fn || !isBool(prm.Type()) {
+			return false
+		}
+		idx := -1
+		for i, q := range fn.Params {
+			if q == prm {
+				idx = i
+			}
+		}
+		n := 0
+		for _, caller := range p.CG().In[fn] {
+			g := mk(caller)
+			for _, b := range caller.Blocks {
+				for _, in := range b.Instrs {
+					cs, isCall := in.(ssa.CallInstruction)
+					if !isCall {
+						continue
+					}
+					hit := false
+					for _, cal := range p.Callees(cs) {
+						if cal == fn {
+							hit = true
+						}
+					}
+					if !hit {
+						continue
+					}
+					c := cs.Common()
+					var actuals []ssa.Value
+					if c.IsInvoke() {
+						actuals = append(actuals, c.Value)
+					}
+					actuals = append(actuals, c.Args...)
+					if idx < 0 || idx >= len(actuals) {
+						return false
+					}
+					n++
+					a := actuals[idx]
+					if k, isC := a.(*ssa.Const); isC && k.Value != nil && k.Value.ExactString() == "false" {
+						continue
+					}
+					ca2 := p.normVal(a, false)
+					if !atomMatches(g, ca2, true, cs) {
+						return false
+					}
+				}
+			}
+		}
+		return n > 0
 	}
 }
 
@@ -1279,8 +1355,8 @@ func SameLoop(a, b *ssa.BasicBlock) bool {
 func (p *Program) LiftGuard(mk func(fn *ssa.Function) GuardMatch, depth int) func(fn *ssa.Function) GuardMatch {
 	var lifted func(fn *ssa.Function) GuardMatch
 	memo := map[string]bool{}
-	establishes := func(cal *ssa.Function, wantBool *bool, d int) bool {
-		key := cal.String()
+	establishes := func(cal *ssa.Function, wantBool *bool, d int, idx int) bool {
+		key := cal.String() + fmt.Sprint("#", idx)
 		if wantBool != nil {
 			key += fmt.Sprint(*wantBool)
 		}
@@ -1311,12 +1387,12 @@ func (p *Program) LiftGuard(mk func(fn *ssa.Function) GuardMatch, depth int) fun
 		} else {
 			for _, b := range cal.Blocks {
 				ret, isRet := b.Instrs[len(b.Instrs)-1].(*ssa.Return)
-				if !isRet || len(ret.Results) == 0 {
+				if !isRet || len(ret.Results) <= idx {
 					continue
 				}
 				// may this return yield *wantBool?
 				may := true
-				if c, isC := ret.Results[0].(*ssa.Const); isC && c.Value != nil {
+				if c, isC := ret.Results[idx].(*ssa.Const); isC && c.Value != nil {
 					may = (c.Value.ExactString() == "true") == *wantBool
 				}
 				if !may {
@@ -1324,8 +1400,8 @@ func (p *Program) LiftGuard(mk func(fn *ssa.Function) GuardMatch, depth int) fun
 				}
 				n++
 				// a forwarded predicate: `return pred(...)` / `return a == b` is the atom itself
-				if _, isC := ret.Results[0].(*ssa.Const); !isC {
-					ca2 := p.normVal(ret.Results[0], false)
+				if _, isC := ret.Results[idx].(*ssa.Const); !isC {
+					ca2 := p.normVal(ret.Results[idx], false)
 					if atomMatches(g, ca2, *wantBool, ret) {
 						continue
 					}
@@ -1357,15 +1433,19 @@ func (p *Program) LiftGuard(mk func(fn *ssa.Function) GuardMatch, depth int) fun
 					return false
 				}
 				for _, cal := range callees {
-					if errResultIndex(cal) < 0 || !establishes(cal, nil, 1) {
+					if errResultIndex(cal) < 0 || !establishes(cal, nil, 1, 0) {
 						return false
 					}
 				}
 				return true
 			case "callbool":
+				idx := 0
+				if ex, ok := ca.X.(*ssa.Extract); ok {
+					idx = ex.Index
+				}
 				for _, cal := range callees {
 					t := truth
-					if !establishes(cal, &t, 1) {
+					if !establishes(cal, &t, 1, idx) {
 						return false
 					}
 				}
